@@ -7,6 +7,7 @@ import DesyncModel.Tables.Push
 import DesyncModel.Tables.Pool
 import DesyncModel.Inv.JobReach
 import DesyncModel.Inv.RunReach
+import DesyncModel.Inv.OwnedReach
 
 namespace Desync.C03
 open Desync Gen
@@ -102,5 +103,12 @@ theorem closure_runs_at_most_once {s : State} (hr : Reachable s) {a j : Nat} {c 
 theorem started_closure_job_is_never_requeued {s : State} (hr : Reachable s) {q j : Nat} {v : JobQ} {jb : Job}
     (hv : s.qs[q]? = some v) (hm : j ∈ v.jobs) (hj : s.jobs[j]? = some jb) (hk : jb.kind.hasBody = true) : jb.begun = false :=
   ran_job_not_queued hr hv hm hj hk
+
+/-- **No queue is left marked as running once everybody has gone** (a piece of the "never stranded" half): in a reachable state
+in which no activity is inside the code that runs a queue, no queue is `running`, `awokenWhileRunning` or
+`waitingForUnpark` — states in which nobody else would ever touch it. -/
+theorem no_queue_left_running {s : State} (hr : Reachable s) (hidle : ∀ a q, (s.pcAt a).holds q = false)
+    {q : Nat} {v : JobQ} (hv : s.qs[q]? = some v) : v.state.held = false :=
+  no_orphaned_running_queue hr hidle hv
 
 end Desync.C03
